@@ -553,7 +553,7 @@ def shrink(case, sig, tmp):
             tail.append(o)
             continue
         curg.append(o)
-        if k in ('finish', 'abort', 'base', 'undo'):
+        if k in ('finish', 'abort', 'base', 'undo', 'newstorage'):
             groups.append(curg)
             curg = []
     if curg:
@@ -627,9 +627,10 @@ def main(argv=None):
                     with open(os.path.join(cdir, fn)) as f:
                         cases.append(json.load(f))
         n_st, n_un, n_db = (100, 60, 60) if not ck.thorough else (4000, 2000, 2000)
-        for kind in KINDS + HEX_KINDS:
-            for _ in range(n_st // 4 if kind == 'mapping' else n_st // 2 if kind in HEX_KINDS else n_st):
-                cases.append(gen_storage_case(ck.rng, kind))
+        for kind in KINDS + HEX_KINDS + ['demo2']:
+            for _ in range(n_st // 4 if kind in ('mapping', 'demo2') else n_st // 2 if kind in HEX_KINDS else n_st):
+                cases.append(c03.with_session(ck.rng, gen_storage_case(ck.rng, kind),
+                                              lambda k2: gen_storage_case(ck.rng, k2), KINDS + HEX_KINDS[:1] + ['demo2']))
         # (not hex:demo:…: DemoStorage.registerDB does not forward the wrapper's transform hooks to its
         #  changes storage, whose undo then cannot unpickle the records and conservatively raises UndoError)
         for kind in ('file', 'demo:file:mapping', 'hex:file'):
